@@ -691,7 +691,7 @@ func GenValue(rt *rapid.T, typeName string, o GenOpts) (*Value, *Features) {
 // DefaultOpts: list-size policy per tier.
 func DefaultOpts(m Mode) GenOpts {
 	if Thorough() {
-		return GenOpts{Mode: m, MaxList: 70000, BigProb: 15, HugeProb: 60, HugeObj: 2500}
+		return GenOpts{Mode: m, MaxList: 70000, BigProb: 20, HugeProb: 120, HugeObj: 4000}
 	}
 	return GenOpts{Mode: m, MaxList: 70000, BigProb: 40, HugeProb: 100}
 }
